@@ -406,3 +406,32 @@ class Run(object):
             self.pid, self.tier, len(self.violations), self.traces, self.states,
             time.time() - self.t0))
         return 1 if self.violations else 0
+
+
+def builtins_constant():
+    """The documented function names, read from SUPPORTED_FORMULAS.md of the tree under test,
+    as a TLA+ set literal for the Builtins constant."""
+    names = []
+    p = os.path.join(REPO, 'SUPPORTED_FORMULAS.md')
+    sect = 0
+    for ln in open(p, encoding='utf-8'):
+        if ln.startswith('#'):
+            sect += 1
+            continue
+        if sect == 1 and ln.startswith('* '):
+            names.append(ln[2:].strip())
+    if len(names) < 100:
+        raise MachineryError('could not read the supported names from SUPPORTED_FORMULAS.md')
+    return names, '{%s}' % ', '.join('"%s"' % n for n in names)
+
+
+def read_cases(path):
+    seen = set()
+    out = []
+    for ln in open(path):
+        ln = ln.strip()
+        if not ln or ln in seen:
+            continue
+        seen.add(ln)
+        out.append(json.loads(json.loads(ln)))
+    return out
